@@ -222,16 +222,24 @@ def gen_noise_case(rng):
     radius = tuple(rng.choice([1, 1, 2, 3]) for _ in shape)
     dens = rng.choice([0.0, 0.01, 0.03, 0.08, 0.2, 0.5])
     im = (rs.randint(1, 200, shape) * (rs.rand(*shape) < dens)).astype(np.uint8)
-    raw = rs.randint(0, 256, shape).astype(np.uint8) if rng.random() < 0.8 else im.copy()
-    return dict(image=im.tolist(), raw=raw.tolist(), radius=list(radius))
+    r = rng.random()
+    if r < 0.5:
+        raw = rs.randint(0, 256, shape).astype(np.int16)
+    elif r < 0.8:                                   # signed raw frame: locate hands measure_noise the clipped image and the raw one
+        raw = rs.randint(-120, 200, shape).astype(np.int16)
+        if rng.random() < 0.5:
+            im = raw.clip(min=0) * (rs.rand(*shape) < max(dens, 0.05))
+    else:
+        raw = im.copy()
+    return dict(image=np.asarray(im).tolist(), raw=np.asarray(raw).tolist(), radius=list(radius))
 
 
 def run_noise_case(w):
     from trackpy.uncertainty import measure_noise
     from trackpy.masks import binary_mask
     from scipy.ndimage import binary_dilation
-    im = np.array(w['image'], dtype=np.uint8)
-    raw = np.array(w['raw'], dtype=np.uint8)
+    im = np.array(w['image'], dtype=np.int16)
+    raw = np.array(w['raw'], dtype=np.int16)
     radius = tuple(w['radius'])
     black, noise = measure_noise(im, raw, radius)
     # exact variance of the pixels trackpy itself calls background: key of the sqrt table
@@ -400,6 +408,19 @@ def run_case(case, chk=None):
             viol.append(('locate: negative static error in column %s' % bad[0][0],
                          '%s table: column %s row %d = %r (%d negative entries in %s)' % (
                              (tname,) + bad[0] + (len(bad), ep_columns(tab)))))
+    # every position of both tables inside the image (directly: the Coq monitor is not reached when a
+    # size / ecc column is NaN, as it is for the F18 witnesses on the unrepaired code)
+    for tname, tab in (('unrestricted', base), ('restricted', restr)):
+        if len(tab):
+            P = tab[pos].values.astype(float)
+            hi = np.array(h['shape'], dtype=float) - 1
+            out = np.isfinite(P) & ((P < 0) | (P > hi))
+            if out.any():
+                i = int(np.argwhere(out.any(1))[0][0])
+                viol.append(('locate: returned feature lies outside the image',
+                             '%s table: feature at %s, image shape %s' % (tname, [float(x) for x in P[i]], list(h['shape']))))
+            if np.isnan(P).any():
+                info['nan_position'] = True
     if len(base) == 0:
         if len(restr) != 0:
             viol.append(('locate: restricted result has rows although the unrestricted result is empty',
@@ -569,6 +590,20 @@ def corpus():
                        m1=None, s1=None, topn=None))
         cs.append(dict(origin='aniso ep: F2 noise texture, %s' % kw, image=tex, kw=dict(kw), m0=None, s0=None,
                        m1='median', s1=None, topn=None))
+    # F18 witnesses (fixed 7e846f3): signed frames with a negative pixel next to the maximum; before the clip the
+    # centroid left the image (x = -48 / x = -3).  Demand: every returned feature inside the image (monitor code 13)
+    w9 = np.zeros((9, 9), dtype=np.int16)
+    w9[4, 1] = 50
+    w9[4, 2] = -49
+    cs.append(dict(origin='F18 9x9 int16, 50 at [4,1], -49 at [4,2], diameter 3, preprocess off', image=w9,
+                   kw=dict(diameter=3, preprocess=False, engine='python'), m0=0, s0=None, m1=None, s1=None, topn=None))
+    w9b = w9.copy()
+    w9b[1, 6] = 10                # a second, faint pixel: the bright one stays above the percentile threshold after the clip
+    cs.append(dict(origin='F18 9x9 int16 witness plus a faint pixel at [1,6] (feature survives the fix)', image=w9b,
+                   kw=dict(diameter=3, preprocess=False, engine='python'), m0=0, s0=None, m1=None, s1=None, topn=None))
+    w3 = np.array([[0, 0, 0], [0, 5, -4], [0, 0, 0]], dtype=np.int16)
+    cs.append(dict(origin='F18 3x3 int16 [[0,0,0],[0,5,-4],[0,0,0]], diameter 3, percentile 0', image=w3,
+                   kw=dict(diameter=3, preprocess=False, percentile=0, engine='python'), m0=0, s0=None, m1=None, s1=None, topn=None))
     return cs
 
 
@@ -658,6 +693,8 @@ def tally_info(chk, case, info):
         chk.tally('unrestricted result empty')
     if info.get('nonfinite'):
         chk.tally('skipped: non-finite feature values')
+    if info.get('nan_position'):
+        chk.tally('tables with a NaN position (counted, not judged)')
     if info.get('tail'):
         chk.tally('whole-tail correspondence run')
     if info.get('tail_degenerate_or_large'):
@@ -831,7 +868,7 @@ def run(chk):
         "diameter (9,11),(11,9),(5,7),(7,5) or scalar diameter with noise_size (1,1.5),(1.5,1), preprocess on/off, percentile 0/20/64: every ep / ep_<axis> column of both tables checked entry by entry "
         "(sign; names, order and values against Model/StaticError.locate_ep); static_error called directly with masses <0, 0, NaN, inf, -1e-3, scalar / per-frame noise (0, NaN, negative included), "
         "isotropic / anisotropic diameter and noise_size, 2-D and 3-D. "
-        "measure_noise directly: 2-D / 3-D uint8 images 4-13 px, signal density 0-50 %, radii 1-3 per axis, raw image different from the processed one, against Model/LocatePipe.measure_noise (none / one / several background pixels). "
+        "measure_noise directly: 2-D / 3-D uint8 images 4-13 px, signal density 0-50 %, radii 1-3 per axis, raw image different from the processed one (also signed raw frames with negative pixels and their clipped copy as processed image), against Model/LocatePipe.measure_noise (none / one / several background pixels). "
         "topn >= 1 only (topn=0 returns the whole table: Python slice [-0:], outside the property). non-trivial = unrestricted result with >= 3 features / >= 3 points")
     chk.assumptions += [
         "everything before the tail (bandpass, grey_dilation, refine_com) is taken from trackpy itself by repeating locate's head; 'inside the image' is monitored on outputs, its proof belongs to C07",
@@ -842,7 +879,7 @@ def run(chk):
         "engine='numba' runs interpreted (numba absent)",
         "np.sqrt in _root_sum_x_squared enters the array model as the table (sum of x^2 over trackpy's own mask -> its float root); the model computes the sums from its own mask model, a different sum finds no table entry and is reported",
         "static_error's 2-D branch indexes N_S[:, np.newaxis]: on a pandas >= 2 Series this raises ValueError (counted, not a C08 violation); that branch is then run with an ndarray mass through a minimal features object, per-frame noise tables cannot be run that way and are counted",
-        "'inside the image' for the whole preprocess=False integer pipeline is proved (Properties/C08.v C08_inside_image) for non-negative pixels; on the implementation it is monitored on every output table"]
+        "'inside the image' for the whole preprocess=False integer pipeline is proved (Properties/C08.v C08_inside_image) for every integer image, negative pixels included (locate clips at zero since 7e846f3; the pipeline without the clip is refuted: C08_inside_without_clip_refuted); on the implementation it is monitored on every output table, the F18 witnesses are corpus cases"]
 
 
 def replay(chk, path):
